@@ -178,6 +178,24 @@ def edits(text):
         yield ("append", v[:12]), text + v
 
 
+# characters that str.split()/str.strip()/str.isspace() treat as blank but the lexer does not skip, other control characters, BOM
+ODD_CHARS = ["\x0c", "\x0b", "\x1c", "\x1d", "\x1e", "\x1f", "\x85", "\u00a0", "\u1680", "\u2000", "\u2028", "\u2029", "\u3000", "\ufeff", "\x7f", "\x01",
+             "\r", "\x1a"]
+
+
+def odd_positions(text):
+    """One odd character at the very end (alone, before a final newline, between blanks), at the very start, and at the end of every line."""
+    for ch in ODD_CHARS:
+        lab = "U+%04X" % ord(ch)
+        yield ("odd-append", lab), text + ch
+        yield ("odd-append-newline", lab), text + ch + "\n"
+        yield ("odd-append-blanks", lab), text + " " + ch + "  \n"
+        yield ("odd-prepend", lab), ch + text
+        lines = text.split("\n")
+        for k in range(len(lines) - 1):
+            yield ("odd-line-end", k, lab), "\n".join(lines[:k] + [lines[k] + ch] + lines[k + 1:])
+
+
 def truncations(text):
     for k in range(len(text)):
         yield ("truncate", k), text[:k]
@@ -250,6 +268,9 @@ def all_inputs(tier):
             out.append(((n,) + tuple(map(str, label)), t, {}))
     for n in names[:3] if tier == "quick" else names:
         for label, t in truncations(SEEDS[n]):
+            out.append(((n,) + tuple(map(str, label)), t, {}))
+    for n in names:
+        for label, t in odd_positions(SEEDS[n]):
             out.append(((n,) + tuple(map(str, label)), t, {}))
     for label, t in fragments(tier):
         out.append((tuple(map(str, label)), t, {}))
